@@ -11,6 +11,7 @@ import (
 	"errors"
 	"flag"
 	"fmt"
+	"io"
 	"math/rand"
 	"os"
 	"os/exec"
@@ -36,7 +37,8 @@ type Op struct {
 	Thread int    `json:"thread"`
 	NNP    bool   `json:"nnp"`
 	Flags  uint32 `json:"flags"`
-	Policy string `json:"policy"` // valid | oversize | invalid
+	Warm   bool   `json:"warm,omitempty"` // the loaded Policy value was assembled before, with other names, and edited in place
+	Policy string `json:"policy"`         // valid | oversize | invalid
 }
 
 type History struct {
@@ -86,6 +88,10 @@ func policyFor(kind string) seccomp.Policy {
 		return seccomp.Policy{DefaultAction: seccomp.ActionAllow, Syscalls: []seccomp.SyscallGroup{{Action: seccomp.ActionErrno, NamesWithCondtions: ncs}}}
 	}
 	act := seccomp.ActionErrno
+	if kind == "valid:allow" {
+		// a policy that can only answer allow is still a filter the kernel must be given
+		return seccomp.Policy{DefaultAction: seccomp.ActionAllow, Syscalls: []seccomp.SyscallGroup{{Action: seccomp.ActionAllow, Names: []string{"kexec_load", "swapon"}}}}
+	}
 	if strings.HasPrefix(kind, "valid:") {
 		// the same policy with a data-carrying action (errno value / trace data): such actions have
 		// no name in the text forms, so policies that differ only there are easy to conflate
@@ -265,6 +271,15 @@ func child(h History) {
 		switch op.Op {
 		case "load", "loadfree":
 			pol := policyFor(op.Policy)
+			if op.Warm && len(pol.Syscalls) == 1 && len(pol.Syscalls[0].Names) == 2 {
+				// the value that is loaded has a history: built with other names, assembled and dumped,
+				// then edited in place (same shape) to the policy of this operation
+				n0, n1 := pol.Syscalls[0].Names[0], pol.Syscalls[0].Names[1]
+				pol.Syscalls[0].Names[0], pol.Syscalls[0].Names[1] = "acct", "swapoff"
+				pol.Assemble()
+				pol.Dump(io.Discard)
+				pol.Syscalls[0].Names[0], pol.Syscalls[0].Names[1] = n0, n1
+			}
 			filter := seccomp.Filter{NoNewPrivs: op.NNP, Flag: seccomp.FilterFlag(op.Flags), Policy: pol}
 			done := make(chan bool)
 			run := func() {
@@ -294,7 +309,8 @@ func child(h History) {
 			obs.FlagsSeen = flagsSeen
 			if captured != nil {
 				// the array handed to the kernel must be the compiled program, instruction for instruction
-				insts, err := pol.Assemble()
+				fresh := policyFor(op.Policy)
+				insts, err := fresh.Assemble()
 				if err != nil {
 					obs.CaptureOK = "assemble-error-but-kernel-reached"
 				} else if raw, err := bpf.Assemble(insts); err != nil {
@@ -466,8 +482,9 @@ func genHistory(r *rand.Rand, profile string) History {
 	}
 	for i := 0; i < nops; i++ {
 		op := Op{Op: "load", Thread: r.Intn(h.Threads), NNP: r.Intn(2) == 0, Flags: flagsPool[r.Intn(4)], Policy: "valid"}
+		op.Warm = r.Intn(4) == 0
 		if r.Intn(2) == 0 {
-			op.Policy = []string{"valid:1", "valid:2", "valid:13", "valid:38", "valid:65537", "valid:65538"}[r.Intn(6)]
+			op.Policy = []string{"valid:1", "valid:2", "valid:13", "valid:38", "valid:65537", "valid:65538", "valid:allow", "valid:allow"}[r.Intn(8)]
 		}
 		switch profile {
 		case "load":
